@@ -466,15 +466,19 @@ psgstrf_WorkInit(int_t n, int_t panel_size, int_t **iworkptr, float **dworkptr)
     if ( whichspace == SYSTEM )
 	*dworkptr = (float *) SUPERLU_MALLOC((size_t) dsize);
     else {
-	    *dworkptr = (float *) suser_malloc(dsize, TAIL);
-	    if ( NotDoubleAlign(*dworkptr) ) {
-	        old_ptr = *dworkptr;
+	    /* Reserve room to align the array inside its own block. Shifting
+	       the block downwards after the stack lock has been released could
+	       run into storage that another thread obtained in the meantime. */
+	    *dworkptr = (float *) suser_malloc(dsize + sizeof(double), TAIL);
+	    if ( *dworkptr && NotDoubleAlign(*dworkptr) )
 	        *dworkptr = (float*) DoubleAlign(*dworkptr);
-	        *dworkptr = (float*) ((double*)*dworkptr - 1);
-	        extra = (char*)old_ptr - (char*)*dworkptr;
-#if ( DEBUGlevel>=1 )
-	        printf("psgstrf_WorkInit: not aligned, extra" IFMT "\n", extra);
-#endif	    
+    } /* else */
+    if ( ! *dworkptr ) {
+	printf("malloc fails for local dworkptr[] ... dsize " IFMT "\n", dsize);
+	return (isize + dsize + n);
+    }
+
+    if ( whichspace == USER ) {
 #if ( MACH==PTHREAD ) /* Use pthread ... */
         pthread_mutex_lock( &stack.lock );
 #elif ( MACH==OPENMP ) /* Use openMP ... */
